@@ -225,9 +225,12 @@ def gen_action_ext(r, pre, length, allow):
             # put_subs: the glyph at the same index of the output class as the slot's glyph has in the input class - classes of
             # different lengths, so that the index can be the output class's length or beyond (getClassGlyph then answers glyph 0),
             # and glyphs that are not in the input class at all (index 0xFFFF)
-            prog = [OP['PUT_SUBS'], 0, 0, r.choice([1, 2, 2, r.randrange(NCLASSES)]), 0, r.randrange(NCLASSES)] + prog
+            ic, oc = r.choice([1, 2, 2, r.randrange(NCLASSES)]), r.randrange(NCLASSES)
+            # (every third one in the obsolete 8-bit encoding, opcodes 29 / 28: the same operations with byte-sized class numbers)
+            prog = ([29, 0, ic, oc] if r.random() < 0.33 else [OP['PUT_SUBS'], 0, 0, ic, 0, oc]) + prog
         else:
-            prog = [OP['PUT_GLYPH'], 0, r.randrange(NCLASSES)] + prog
+            oc = r.randrange(NCLASSES)
+            prog = ([28, oc] if r.random() < 0.33 else [OP['PUT_GLYPH'], 0, oc]) + prog
     return prog, kinds
 
 
